@@ -101,6 +101,8 @@ THEOREMS = [
     'CpProofs.C03.C03_bind_never_5xx_partial',
     'CpProofs.C03.respond_status',
     'CpProofs.C03.respond_handler',
+    'CpProofs.C03.lookup_lateKwargs',
+    'CpProofs.C03.respond_catchall_late',
     # tables regenerated from the live modules
     'CpProofs.C03.tables_processors',
     'CpProofs.C03.tables_imagemap_pattern',
@@ -369,7 +371,8 @@ def _get_app(case):
     att = case.get('attempt_cfg')
     key = (case.get('qs_enc'), tuple(att) if att is not None else None, case.get('uri_enc'),
            case.get('process_body'), case.get('processors'),
-           c03_bind.sig_token(sig) if sig is not None else None)
+           c03_bind.sig_token(sig) if sig is not None else None,
+           json.dumps(case.get('late'), sort_keys=True) if case.get('late') else None)
     if key in _apps:
         return _apps[key]
     if sig is None:
@@ -386,8 +389,17 @@ def _get_app(case):
         root = Root()
     else:
         def rec(loc):
-            # request.params is what the model's `H <params>` stands for; the handler's own view is `locals`
-            _record(cherrypy, (), dict(cherrypy.request.params), loc)
+            # handler.kwargs (request.params + what a dispatcher / tool gave the handler) is what the model's
+            # `H <params>` stands for; the handler's own view is `locals`
+            try:
+                h = cherrypy.request.handler
+                while hasattr(h, 'oldhandler'):  # tools.encode wraps the page handler
+                    h = h.oldhandler
+                kw = dict(h.kwargs)
+            except Exception as e:               # a bug of this probe must not look like a CherryPy failure
+                _seen['probe_error'] = '%s: %s' % (type(e).__name__, e)
+                return
+            _record(cherrypy, (), kw, loc)
         root = c03_bind.make_root(sig, rec)
     conf = {}
     if case.get('qs_enc') is not None:
@@ -400,9 +412,19 @@ def _get_app(case):
         conf['request.process_request_body'] = bool(case['process_body'])
     if case.get('processors') is not None:
         conf['request.body.processors'] = _processors(case['processors'])
+    if case.get('late'):
+        late = case['late']
+
+        def before_handler():
+            # what a tool may do between dispatch and the call: the handler's keyword arguments are bound late
+            for k, v in late.get('params') or []:
+                cherrypy.request.params[k] = v
+            if late.get('handler_kwargs'):
+                cherrypy.request.handler.kwargs = dict((k, v) for k, v in late['handler_kwargs'])
+        conf['hooks.before_handler'] = before_handler
     app = cherrypy.Application(root, '', {'/': conf})
     _apps[key] = app
-    if sig is not None:                         # generated signatures: keep only the most recent applications
+    if sig is not None or case.get('late'):     # generated signatures: keep only the most recent applications
         _sig_apps.append(key)
         if len(_sig_apps) > 48:
             _apps.pop(_sig_apps.pop(0), None)
@@ -528,7 +550,7 @@ def run_real(case):
 
 
 NEW_DIMS = ('uri_enc', 'process_body', 'processors', 'media', 'no_length', 'no_ctype', 'parts', 'sig', 'path',
-            'boundary')
+            'boundary', 'late')
 
 
 def uses_new_dims(case):
@@ -562,8 +584,12 @@ def model_line_x(case):
     rest = '%s %s %s %s %d %d %s %s %s %s %s %s' % (
         uri, qs_enc, hx(bytes.fromhex(case.get('path') or '2f')), hx(bytes.fromhex(case['q'])), pb, has_len,
         PROC_TOKENS[case.get('processors')], tx(media_of(case)), decl, conf, body, fields_token(case))
-    if case.get('sig') is not None:
-        return 'resp %s %d %s' % (c03_bind.sig_token(case['sig']), len(case.get('atoms') or []), rest)
+    if case.get('sig') is not None or case.get('late'):
+        late = case.get('late') or {}
+        pairs = list(late.get('params') or []) + list(late.get('handler_kwargs') or [])
+        return 'resp %s %d %s %s' % (c03_bind.sig_token(case.get('sig') or c03_bind.CATCH_ALL),
+                                     len(case.get('atoms') or []),
+                                     ','.join('%s:%s' % (tx(k), tx(v)) for k, v in pairs) or '~', rest)
     return 'reqx ' + rest
 
 
@@ -703,6 +729,8 @@ def outside_quantifier(case):
     sig = case.get('sig')
     if sig is not None and not c03_bind.is_catch_all(sig):
         return 'handler with named parameters'
+    if case.get('late'):
+        return 'a tool assigns to request.params / handler.kwargs before the handler runs'
     if any(c >= 0x80 for c in bytes.fromhex(case.get('path') or '2f')):
         return 'non-ASCII path'
     if case.get('uri_enc') is not None and cs_enum(case['uri_enc']) != 'utf8' \
@@ -1142,7 +1170,7 @@ def gen_huge(rng):
 
 # ---- the dimensions around the parsers ---------------------------------------------------------
 DIM_KINDS = ['uri_enc', 'method-nobody', 'process_body', 'processors', 'media', 'no_ctype', 'no_length', 'empty-body',
-             'path', 'post-nobody', 'ctype-params']
+             'path', 'post-nobody', 'ctype-params', 'late']
 MEDIA = ['text/plain', 'application/json', 'Application/X-WWW-Form-Urlencoded', 'APPLICATION/X-WWW-FORM-URLENCODED',
          'application/x-www-form-urlencoded2', 'application', 'text/x-form', 'application/octet-stream', 'x']
 CTYPE_EXTRA = ['; boundary=zzz', ';q=1', '; x="a;b"', '; format=flowed', ' ', ';', '; X=Y']
@@ -1162,7 +1190,6 @@ def gen_dims(rng):
     spelling), no Content-Type, no Content-Length, an empty body, a non-ASCII path, POST without body, extra
     Content-Type parameters."""
     case = gen_request(rng)
-    case.pop('truth', None)
     kinds = rng.sample(DIM_KINDS, rng.choice([1, 1, 1, 2]))
     for kind in kinds:
         if kind == 'uri_enc':
@@ -1202,6 +1229,14 @@ def gen_dims(rng):
         elif kind == 'ctype-params':
             _ensure_body(rng, case)
             case['ctype_extra'] = rng.choice(CTYPE_EXTRA)
+        elif kind == 'late':
+            sent = [k for k, _ in (case.get('truth') or [])] + ['a', 'late\u00e9']
+            pick = lambda: [[rng.choice(sent + ['hk', 'x']), rng.choice(['L', '', 'l\u00e9'])]
+                            for _ in range(rng.choice([0, 1, 1, 2]))]
+            case['late'] = {'params': pick(), 'handler_kwargs': pick()}
+            if not case['late']['params'] and not case['late']['handler_kwargs']:
+                case['late']['handler_kwargs'] = [['hk', 'K']]
+    case.pop('truth', None)
     if case.get('b') is None:
         case['declared'] = None
     case['scenario'] = 'dims:' + '+'.join(sorted(kinds))
@@ -1995,8 +2030,6 @@ def explain_unexecuted(rel, qualname, src):
                     'dispatcher can hand over')
         if src == 'inspect.ismethod(callable)':
             return "second operand of `hasattr(callable, '__call__') or ...`: every callable has __call__"
-    if qualname == 'LateParamPageHandler.kwargs' and '_kwargs' in src:
-        return 'handler.kwargs set by a dispatcher or tool (none is configured here; C02 covers dispatchers)'
     if qualname == 'process_urlencoded' and 'entity.params[key]' in src:
         return ('entity.params non-empty before the processor runs: neither RequestBody nor Part is ever constructed '
                 'with params (the final copy loop is the identity on {})')
